@@ -18,9 +18,17 @@ HERE = os.path.dirname(os.path.abspath(__file__))
 VERIF = os.path.dirname(HERE)
 REPO = os.environ.get("VERIF_REPO", "/repo")
 CACHE = os.path.join(VERIF, ".cache")
-WORK = os.path.join(CACHE, "work")
 RESULTS = os.path.join(CACHE, "results")
-TARGET = os.path.join(CACHE, "target")
+if os.path.realpath(REPO) == "/repo":
+    WORK = os.path.join(CACHE, "work")
+    TARGET = os.path.join(CACHE, "target")
+    DRIVER_DIR = os.path.join(VERIF, "driver")
+else:
+    # a scratch copy of the repository (self-test, seeded changes): own work dir and driver crate
+    _tag = hashlib.sha256(os.path.realpath(REPO).encode()).hexdigest()[:10]
+    WORK = os.path.join(CACHE, "work_" + _tag)
+    TARGET = os.path.join(CACHE, "target_alt")
+    DRIVER_DIR = os.path.join(WORK, "_driver")
 sys.path.insert(0, HERE)
 
 import assemble            # noqa: E402
@@ -68,7 +76,15 @@ def tool_hash():
 def build_driver():
     env = dict(os.environ, CARGO_NET_OFFLINE="true", CARGO_TARGET_DIR=TARGET)
     t0 = time.time()
-    r = sh(["cargo", "build", "--release", "--offline", "--quiet"], cwd=os.path.join(VERIF, "driver"), env=env)
+    if DRIVER_DIR != os.path.join(VERIF, "driver"):
+        os.makedirs(os.path.join(DRIVER_DIR, "src"), exist_ok=True)
+        src = os.path.join(VERIF, "driver")
+        toml = open(os.path.join(src, "Cargo.toml")).read().replace('path = "/repo"', 'path = "%s"' % os.path.realpath(REPO))
+        open(os.path.join(DRIVER_DIR, "Cargo.toml"), "w").write(toml)
+        shutil.copy(os.path.join(src, "src", "main.rs"), os.path.join(DRIVER_DIR, "src", "main.rs"))
+        if os.path.exists(os.path.join(src, "Cargo.lock")):
+            shutil.copy(os.path.join(src, "Cargo.lock"), os.path.join(DRIVER_DIR, "Cargo.lock"))
+    r = sh(["cargo", "build", "--release", "--offline", "--quiet"], cwd=DRIVER_DIR, env=env)
     if r.returncode != 0:
         return None, r.stderr[-4000:], time.time() - t0
     return os.path.join(TARGET, "release", "llwgen"), "", time.time() - t0
@@ -340,6 +356,27 @@ def verify_unit(unit, gen_text, timeout=1500):
             for e in parse_errors(err, lines, fn_line_ranges(t)):
                 e["shard"] = i
                 res["errors"].append(e)
+    ext = ((res.get("report") or {}).get("annotator") or {}).get("external") or []
+    if res["status"] == "ok" and ext:
+        # bounded stand-in for the functions Verus cannot ingest (E8): exhaustive native run of the
+        # real emitted parser over all short inputs.  Labelled bounded, never counted as proved.
+        try:
+            import falsify
+            exe, info = falsify.build_harness(gen_text, os.path.join(d, "native"))
+            if exe is None:
+                res["bounded"] = {"status": "harness_failed", "detail": info.get("error", "")[-1500:], "functions": ext}
+            else:
+                n = len(info["chars"])
+                ml = 6
+                while ml > 2 and n ** ml > 2_000_000:
+                    ml -= 1
+                t1 = time.time()
+                b = falsify.run_search(exe, ml, 2_500_000)
+                b.update({"functions": ext, "max_len": ml, "alphabet": info["chars"], "predicate_patterns": info["predicate_patterns"],
+                          "entries": info["entries"], "wall_s": round(time.time() - t1, 2)})
+                res["bounded"] = b
+        except Exception as e:
+            res["bounded"] = {"status": "harness_failed", "detail": "%s: %s" % (type(e).__name__, e), "functions": ext}
     if res["status"] == "ok":
         os.makedirs(RESULTS, exist_ok=True)
         tmp = cpath + ".tmp%d" % os.getpid()
